@@ -144,7 +144,8 @@ static std::string run_case_inproc(const Case &c, bool *nontrivial)
 		if (m.dir == 0) {
 			// client -> server
 			std::string wire = m.payload; bool compressed = p.accepted;
-			if (compressed) {
+			if (compressed && m.payload.empty()) wire = std::string(1, '\0'); // RFC 7692 7.2.3.6: an empty message is the single byte 0x00
+			else if (compressed) {
 				std::vector<uint8_t> buf(m.payload.size() * 2 + 64);
 				def.next_in = (Bytef *)m.payload.data(); def.avail_in = (uInt)m.payload.size(); def.next_out = buf.data(); def.avail_out = (uInt)buf.size();
 				deflate(&def, Z_SYNC_FLUSH);
@@ -174,10 +175,10 @@ static std::string run_case_inproc(const Case &c, bool *nontrivial)
 			}
 			uint8_t *mp; int done, kind; size_t mn = c19_msg(x, &mp, &done, &kind);
 			if (corrupt) {
-				// adversarial input: anything but memory errors is acceptable; afterwards our compressor state may be out of sync
-				if (!c19_closed(x)) { deflateReset(&def); if (!p.c_nct) break; }
+				// adversarial input: anything but memory errors is acceptable; the state of both codecs is undefined afterwards,
+				// so nothing further can be expected from this connection
 				if (nontrivial) *nontrivial = true;
-				continue;
+				break;
 			}
 			if (c19_closed(x)) { fail = "a well-formed " + std::string(compressed ? "compressed " : "") + "message of " + std::to_string(m.payload.size()) + " bytes in " + std::to_string(parts.size()) + " fragment(s) made the endpoint close the connection"; break; }
 			if (done != 1) { fail = "message of " + std::to_string(m.payload.size()) + " bytes in " + std::to_string(parts.size()) + " fragment(s): " + std::to_string(done) + " messages delivered to the application"; break; }
@@ -195,8 +196,9 @@ static std::string run_case_inproc(const Case &c, bool *nontrivial)
 			c19_out_clear(x);
 			std::string got = fr[0].payload;
 			if (fr[0].masked) { fail = "server frame masked"; break; }
-			if (p.accepted != (fr[0].rsv == 4)) { fail = "RSV1 of the server frame does not match the negotiated extension"; break; }
-			if (p.accepted) {
+			if (!p.accepted && fr[0].rsv != 0) { fail = "server sets RSV bits although no extension was negotiated"; break; }
+			if (fr[0].rsv != 0 && fr[0].rsv != 4) { fail = "server sets RSV2/RSV3"; break; }
+			if (fr[0].rsv == 4) { // a sender may also leave a message uncompressed (RFC 7692 section 6)
 				std::string in = got + std::string("\x00\x00\xff\xff", 4);
 				std::vector<uint8_t> buf(pl.size() + 4096);
 				inf.next_in = (Bytef *)in.data(); inf.avail_in = (uInt)in.size(); inf.next_out = buf.data(); inf.avail_out = (uInt)buf.size();
